@@ -188,6 +188,22 @@ PROPS = {
         ],
         "gen": [],
     },
+    "C16": {
+        "level_text": "Lean 4 theorems over an executable model of ToolCallCollector, ToolChoiceEnforcement and the request/answer bookkeeping of run_openresponses_agent_loop: for EVERY provider script (any number, order and interleaving of function-call items, argument deltas and done events; missing, empty and duplicate ids; arbitrary output indexes; failed streams), every tool_choice form, both history modes, every bound and every validation oracle — one provider event yields at most one call and only a function-call done event yields one; a done call naming its id and function is never lost in any reachable collector state; calls reach the loop stably sorted by output index; the next request's input is exactly one answer per call of the turn, by call id, in that order (and in stateless mode is the previous input extended by the calls and their answers: every input is a prefix of the next); each call of a turn is run or rejected exactly once (a prefix of them in the last turn); a tool excluded by the tool choice (separately stated specification) never runs; run + rejected calls never exceed the bound; a request failing validation is never sent. Obligations re-proved by decide on tables REGENERATED from the current source on every run: in the agent loop no tool runs in the barred arm of the tool-choice decision; the validation gate precedes the only HTTP send; the bound is the source's DEFAULT_MAX_TOOL_CALLS (the model and its driver take it from the regenerated constant). Tied further by (1) unit correspondence of the real collector and the real enforcement against the model on random event sequences and tool_choice JSON values, and (2) end-to-end correspondence: a real SessionEngine against a scripted loopback provider — the request bodies the provider received, tool frames, rejections and end reason must equal the model's run on the same script; plus implementation oracles (input prefix chain, barred tools and their side effects, bound, invalid config never sent, answers vs tool frames). One defect found and repaired: in stateless mode the follow-up user message was not kept in the history (fix: commit).",
+        "level_note": "Lean kernel; strings are numbers and argument text is a list of chunks in the model (the harness interns them; concatenation = append); JSON parsing of event payloads is glue covered only by the correspondence run; the schema validator itself is an oracle of the model (its verdict is observed: an invalid tool_choice, an empty call id); tool execution outcomes do not influence the bookkeeping (outputs are opaque).",
+        "technique": "Lean 4 proof (loop invariant over all provider scripts; stable-sort and collector lemmas; separately stated exclusion spec) + decide over regenerated effect orders/constant + unit and end-to-end differential correspondence with a scripted provider",
+        "design_ref": "§5 C16",
+        "trusted_base": COMMON_TB + [
+            "translator ripx (syn): agent-loop effect order with tool-choice branch markers, validation gate / send order, DEFAULT_MAX_TOOL_CALLS",
+            "hooks: ripd::verif_export::session::{collector_run, tool_choice_allows}, ripd::verif_export::OpenResponsesConfig",
+            "harness: scripted loopback provider; syntactic reading of tool_choice JSON into the model's ToolChoice",
+        ],
+        "assumptions": [
+            "when the bound is reached the run ends: calls already run in that turn are not answered (no further request is sent) — the property's 'answered in the very next request' is proved for every turn that has a next request",
+            "hosted-tool tool_choice forms (file_search, web_search, …) are treated as 'all functions allowed' by the code and are outside the property's list",
+        ],
+        "gen": ["EffectOrder", "Consts", "LockTable"],
+    },
     "C17": {
         "level_text": "Lean 4 theorems over executable models of (a) the task log writer, the shell tool's capture_stream, and page reads: stored log = prefix of the output up to the cap for every chunking and cap; ranges consecutive and tiling; each range names its chunk; shell preview and spill artifact are prefixes within their limits and the artifact exists whenever needed; any page walk reassembles the stored bytes; and (b) a labelled transition system of one task (main task, stdout pump, stderr pump, client cancellation at any moment, atomic emits): under EVERY schedule the recorded stream is a well-formed lifecycle prefix, complete once the task finished, with nothing after the terminal status and all output before it. Tied to the code by correspondence: scripted chunk sequences through the real TaskLogWriter / read_artifact_range / capture_stream / truncate_utf8 (exported under cfg rip_verif) vs the compiled model; real background tasks through the HTTP router (interleaved stdout/stderr, split multi-byte, binary, 40 KB, exit codes, cancel at a random moment, invalid args, bad cwd, preview 0/2, cap 5) whose recorded frames must be accepted by the Lean lifecycle automaton and whose frame ranges / page walks / artifact hashes are checked by oracles.",
         "level_note": "Lean kernel; SHA-256 not modelled (hash recomputed by the harness); lossy UTF-8 decoding of page/preview text is applied by Rust on both sides; OS pipe chunking is whatever the kernel delivers (the theorems hold for every chunking); PTY tasks share the emitter and lifecycle shape but are not run here (no PTY in the sandbox).",
